@@ -45,6 +45,26 @@ SPEC = [
          params=[("snr", "Q"), ("noise_std", "Q"), ("sqrt_tchans", "Q")], ret="Q", opaque={"np.sqrt(self.tchans)": "sqrt_tchans"}),
     dict(group="11", name="get_snr", file="setigen/frame.py", cls="Frame", func="get_snr", what="return",
          params=[("intensity", "Q"), ("noise_std", "Q"), ("sqrt_tchans", "Q")], ret="Q", opaque={"np.sqrt(self.tchans)": "sqrt_tchans"}),
+    dict(group="06", name="bounding_min", file="setigen/frame.py", cls="Frame", func="add_signal", what="nth:bounding_min:1",      # else branch: a bounding range is given
+         params=[("i0", "Z"), ("fchans", "Z")], ret="Z", opaque={"self.get_index(bounding_f_range[0])": "i0"}),
+    dict(group="06", name="bounding_max", file="setigen/frame.py", cls="Frame", func="add_signal", what="nth:bounding_max:1",
+         params=[("i1", "Z"), ("fchans", "Z"), ("bounding_min", "Z")], ret="Z", opaque={"self.get_index(bounding_f_range[1])": "i1"}),
+    dict(group="13", name="px_start", file="setigen/frame.py", cls="Frame", func="add_constant_signal", what="assign:px_start",
+         params=[("f_start", "Q"), ("fmin", "Q"), ("df", "Q")], ret="Q"),
+    dict(group="13", name="px_width_offset", file="setigen/frame.py", cls="Frame", func="add_constant_signal", what="assign:px_width_offset",
+         params=[("width", "Q"), ("df", "Q")], ret="Q"),
+    dict(group="13", name="px_drift_offset", file="setigen/frame.py", cls="Frame", func="add_constant_signal", what="nth:px_drift_offset:1",
+         params=[("drift_rate", "Q"), ("dt", "Q"), ("df", "Q"), ("tchans", "Z")], ret="Q"),
+    dict(group="13", name="px_drift_smear_extra", file="setigen/frame.py", cls="Frame", func="add_constant_signal", what="aug:px_drift_offset:1",   # inside `if doppler_smearing`
+         params=[("drift_rate", "Q"), ("dt", "Q"), ("df", "Q")], ret="Q"),
+    dict(group="13", name="bounding_start_index", file="setigen/frame.py", cls="Frame", func="add_constant_signal", what="assign:bounding_start_index",
+         params=[("px_start", "Q"), ("px_drift_offset", "Q"), ("px_width_offset", "Q")], ret="Z"),
+    dict(group="13", name="bounding_stop_index", file="setigen/frame.py", cls="Frame", func="add_constant_signal", what="assign:bounding_stop_index",
+         params=[("px_start", "Q"), ("px_drift_offset", "Q"), ("px_width_offset", "Q")], ret="Z"),
+    dict(group="13", name="bounding_min_index", file="setigen/frame.py", cls="Frame", func="add_constant_signal", what="assign:bounding_min_index",
+         params=[("bounding_start_index", "Z"), ("fchans", "Z")], ret="Z"),
+    dict(group="13", name="bounding_max_index", file="setigen/frame.py", cls="Frame", func="add_constant_signal", what="assign:bounding_max_index",
+         params=[("bounding_stop_index", "Z"), ("fchans", "Z")], ret="Z"),
     dict(group="13", name="smearing_subsamples", file="setigen/frame.py", cls="Frame", func="add_constant_signal", what="kwarg:smearing_subsamples",
          params=[("drift_rate", "Q"), ("unit_drift_rate", "Q")], ret="Z"),
     dict(group="07", name="center_freq", file="setigen/voltage/backend.py", cls="RawVoltageBackend", func="_header_populate_configuration", what="assign:center_freq",
@@ -123,6 +143,13 @@ def pick(fn, what):
         hits = sorted([m for m in ast.walk(fn) if isinstance(m, ast.Assign) and any(src(t) == target for t in m.targets)], key=lambda m: (m.lineno, m.col_offset))
         if len(hits) < int(k):
             raise Untranslatable("only %d assignments to %s" % (len(hits), target))
+        return hits[int(k) - 1].value
+    if kind == "aug":
+        # the value of the k-th augmented assignment to the target (e.g. the increment added inside an `if`)
+        target, k = target.rsplit(":", 1)
+        hits = sorted([m for m in ast.walk(fn) if isinstance(m, ast.AugAssign) and src(m.target) == target], key=lambda m: (m.lineno, m.col_offset))
+        if len(hits) < int(k) or not isinstance(hits[int(k) - 1].op, ast.Add):
+            raise Untranslatable("no %s-th '+=' on %s" % (k, target))
         return hits[int(k) - 1].value
     if kind == "assign":
         expr = None
